@@ -83,6 +83,24 @@ def _td_loops(ck, repo, nf):
         env0.update({ovar: Poly.atom("S"), avar: Poly.atom("A"), nvar: Poly.atom("N"), rvar: Poly.atom("R"), dvar: Poly.atom("D")})
         for t in spec["tables"]:
             env0[t] = Poly.atom(t)
+        # names bound in the iteration before the step (q = q1 + q2, ...): the same value on every way to the step
+        try:
+            pre = enumerate_paths(cfg, L.loop_header, {L.step_node}, first_label=True, max_paths=200)
+        except RuntimeError:
+            pre = []
+        pre_env = None
+        protected = set(env0)
+        for pp in pre:
+            pe0 = PathEval(nf, cfg, mi, tq, {k_: v_ for k_, v_ in env0.items() if k_ not in (avar, nvar, rvar, dvar)})
+            try:
+                pe0.run(pp[:-1])
+            except Exception:
+                pre_env = {}
+                break
+            cur = {k_: v_ for k_, v_ in pe0.env.items() if k_ not in protected and "φ(" not in v_.canon()}
+            pre_env = cur if pre_env is None else {k_: v_ for k_, v_ in cur.items() if k_ in pre_env and pre_env[k_] == v_}
+        for k_, v_ in (pre_env or {}).items():
+            env0.setdefault(k_, v_)
         succ = [s_ for s_, _l in cfg.nodes[L.step_node].succ]
         ck.need(len(succ) == 1, f"{tq}: env.step statement has {len(succ)} successors")
         try:
